@@ -216,9 +216,19 @@ class Body:
             if k == "goto":
                 succ[i].append(t["target"])
             elif k == "switch":
-                for v, tb in t["targets"]:
-                    succ[i].append(tb)
-                succ[i].append(t["otherwise"])
+                cv = self._const_discr(bl, t)
+                if cv is not None:
+                    # switch on a constant assigned in the same block (cfg!(debug_assertions), drop flags set
+                    # immediately before): only the taken edge exists
+                    tgt = t["otherwise"]
+                    for v, tb in t["targets"]:
+                        if int(v) == cv:
+                            tgt = tb
+                    succ[i].append(tgt)
+                else:
+                    for v, tb in t["targets"]:
+                        succ[i].append(tb)
+                    succ[i].append(t["otherwise"])
             elif k in ("call",):
                 if t["target"] is not None:
                     succ[i].append(t["target"])
@@ -236,6 +246,25 @@ class Body:
             for s in seen:
                 pred[s].append(i)
         self._succ, self._pred = succ, pred
+
+    @staticmethod
+    def _const_discr(bl, t):
+        l = op_local(t["discr"])
+        if l is None:
+            if t["discr"]["k"] == "const" and "val" in t["discr"]:
+                v = t["discr"]["val"]
+                return int(v) if not isinstance(v, bool) else int(v)
+            return None
+        val = None
+        for s in bl["stmts"]:
+            if s["k"] == "assign" and not s["place"]["proj"] and s["place"]["local"] == l:
+                rv = s["rv"]
+                if rv["k"] == "use" and rv["op"]["k"] == "const" and "val" in rv["op"]:
+                    v = rv["op"]["val"]
+                    val = int(v)
+                else:
+                    val = None
+        return val
 
     def reachable(self, start=0, without_edge=None, without_blocks=()):
         seen = set()
